@@ -735,7 +735,12 @@ class Tie:
             if hl.startswith("SAN") or not same(dl, hl):
                 self.report(part, ln, dl, hl)
             if ln.startswith("p ") and not hl.startswith("SAN") and hl != "SKIP":
-                self.impl_clauses(part, ln, hl)
+                try:
+                    self.impl_clauses(part, ln, hl)
+                except (IndexError, ValueError, RecursionError):
+                    # the implementation's dump is not a well-formed tree (only seen with a damaged printer/dumper):
+                    # the line comparison above has reported it; the clauses cannot be evaluated on it
+                    self.cov["cjson_unreadable_dumps"] = self.cov.get("cjson_unreadable_dumps", 0) + 1
             if hist and ln.startswith("p "):
                 k = outcome_kind(C.unhex(ln[2:]), dl)
                 self.hist[k] = self.hist.get(k, 0) + 1
@@ -962,6 +967,12 @@ def run_cjson_tie(ctx, out):
     wl = ["w " + " ".join(tok_tree(t, numtext)) for t in ptrees]
     wl += ["w s" + hx(bytes([c])) for c in range(1, 256)] + ["w s-", "w o1 - s-", "w a0", "w o0", "w a1 a1 a0"]
     wl += ["w " + "a1 " * k + "a0" for k in (limit - 1, limit, limit + 1)]
+    # every one-byte fragment of the printer ('[', ']', '{', '}', ':', ',', the quotes) at every offset around the sizes the
+    # print buffer grows through (256, 512, 1024): a string of L bytes in front of an array / object / member
+    lens = range(0, 1100) if thorough else sorted(set(list(range(0, 1100, 7)) + list(range(236, 272)) + list(range(492, 528)) + list(range(1004, 1040))))
+    for L in lens:
+        xs = hx(b"x" * L) if L else "-"
+        wl += ["w a2 s%s a0" % xs, "w o2 6b s%s 61 a0" % xs, "w o1 %s o0" % xs, "w a3 s%s o1 61 t a1 n" % xs]
     tw = T.batch("printer", list(dict.fromkeys(wl)), hist=False)
     # what was printed must parse back (both sides), consumed entirely
     back = ["p " + l[2][3:] for l in tw if l[2].startswith("ok ")]
